@@ -35,6 +35,7 @@ PROBES = ["io_fault_fired", "crash_fired", "torn_tmp_left_behind", "second_run_a
           "enospc_mid_save", "vanish_fired", "log_dir_fault_fired", "walk_packages_run", "syscall_monitored_run", "io_fault_sequence_fired", "double_crash_fired", "crash_point_sweep"]
 
 STRACE_SHARE = 0.25
+WEIGHTS = {"huge": 0.012}  # size thresholds (pools that start, buffers that spill) are where a program begins to fork or to write elsewhere
 CRASH_WORLDS = {"quick": 1, "thorough": 8}
 NETWORK_MODULES = {"socket", "socketserver", "ssl", "http.client", "http.server", "urllib.request", "urllib3", "requests", "httpx", "aiohttp",
                    "ftplib", "smtplib", "poplib", "imaplib", "telnetlib", "nntplib", "xmlrpc", "xmlrpc.client", "xmlrpc.server", "websocket",
@@ -72,7 +73,7 @@ IO_FAULTS = [
 
 def make_case(seed, facts, index=0):
     rng = random.Random(seed)
-    base = c16.make_case(rng.randint(0, 2**62), facts, index)
+    base = c16.make_case(rng.randint(0, 2**62), facts, index, weights=WEIGHTS)
     base["property"] = PROP
     base["seed"] = seed
     mode = rng.choice(["clean", "clean", "input_fault", "input_fault", "io_fault", "io_fault", "io_fault", "crash_history", "crash_history"])
